@@ -18,31 +18,57 @@ pub fn convert_range_slice(
             to,
             inclusive,
             step,
-        } => Ok(Core::FunctionCall {
-            function: Box::from(Core::Id {
-                lit: String::from(clss::python::RANGE),
-            }),
-            args: vec![
-                convert_node(from, imp, state, ctx)?,
-                if *inclusive {
-                    Core::Add {
-                        left: Box::from(convert_node(to, imp, state, ctx)?),
-                        right: Box::from(Core::Int {
-                            int: String::from("1"),
+        } => {
+            let from = convert_node(from, imp, state, ctx)?;
+            let to = convert_node(to, imp, state, ctx)?;
+            let step = match step {
+                Some(step) => Some(convert_node(step, imp, state, ctx)?),
+                None => None,
+            };
+            let one = || {
+                Box::from(Core::Int {
+                    int: String::from("1"),
+                })
+            };
+            // an inclusive range ends one beyond to, in the direction of the step
+            let to = match &step {
+                _ if !inclusive => to,
+                None | Some(Core::Int { .. }) => Core::Add {
+                    left: Box::from(to),
+                    right: one(),
+                },
+                Some(Core::SubU { expr }) if matches!(**expr, Core::Int { .. }) => Core::Sub {
+                    left: Box::from(to),
+                    right: one(),
+                },
+                Some(step) => Core::Add {
+                    left: Box::from(to),
+                    right: Box::from(Core::Ternary {
+                        cond: Box::from(Core::Ge {
+                            left: Box::from(step.clone()),
+                            right: Box::from(Core::Int {
+                                int: String::from("0"),
+                            }),
                         }),
-                    }
-                } else {
-                    convert_node(to, imp, state, ctx)?
+                        then: one(),
+                        el: Box::from(Core::SubU { expr: one() }),
+                    }),
                 },
-                if let Some(step) = step {
-                    convert_node(step, imp, state, ctx)?
-                } else {
-                    Core::Int {
+            };
+
+            Ok(Core::FunctionCall {
+                function: Box::from(Core::Id {
+                    lit: String::from(clss::python::RANGE),
+                }),
+                args: vec![
+                    from,
+                    to,
+                    step.unwrap_or(Core::Int {
                         int: String::from("1"),
-                    }
-                },
-            ],
-        }),
+                    }),
+                ],
+            })
+        }
         NodeTy::Slice {
             from,
             to,
